@@ -77,12 +77,63 @@ MUT_NO_READ = {"new", "lit", "attach", "copy", "ptr", "fill", "cap", "assign", "
                "reserve", "fillfrom", "appendS", "append", "appendC", "prependS", "prepend", "substr", "join",
                "prependX", "appendX", "printf", "appendA", "prependA",
                "plusEqS", "plusEqC", "plus", "plusLit", "fromCStr", "fromCStrN", "fromBool", "fromInt", "fromInt64",
-               "fromUInt", "fromUInt64", "fromPrintf", "substr1", "capacity", "isEmpty"}
+               "fromUInt", "fromUInt64", "fromPrintf", "substr1", "capacity", "isEmpty", "printfX", "fromDouble"}
 STATIC2 = {"sCompare", "sCompareIC", "sFind", "sFindOneOf", "sFindLast", "sFindLastOf", "sCompareN", "sCompareICN"}
 STATIC = STATIC2 | {"sLength", "sFindC", "sFindLastC", "sStartsWith", "isSpace", "toLowerC", "toUpperC", "ctype"}
 OPERAND_OPS = ("compare", "compareN", "compareIC", "compareICN", "eq", "eqIC", "startsWith", "endsWith",
                "ne", "lt", "le", "gt", "ge", "eqICN")
 PUNCT = set(b"!\"#$%&'()*+,-./:;<=>?@[\\]^_`{|}~")
+
+
+def cfmt(fmt, arg):
+    """what vsnprintf gives for a format with one conversion (Python's % operator after dropping the l/ll modifiers);
+    arg = <K><value> as in the op line"""
+    f = bytes(unhex(fmt)).decode("latin-1")
+    f = re.sub(r"(%[-+ 0#]*\d*(?:\.\d+)?)l{1,2}([diuxXo])", r"\1\2", f)
+    k, a = arg[0], arg[1:]
+    if k in "DQUW": val = int(a)
+    elif k == "C": val = chr(int(a))
+    elif k == "F": val = float(a)
+    else: val = bytes(unhex(a)).decode("latin-1")
+    f = f.replace("%u", "%d")
+    f = re.sub(r"(%[-+ 0#]*\d*(?:\.\d+)?)u", r"\1d", f)
+    return list((f % val).encode("latin-1"))
+
+
+def cscan_d(cs):
+    """sscanf(cs, "%d", &x) on a NUL-free byte list: (result, x)"""
+    i = 0
+    while i < len(cs) and cs[i] in (32, 9, 10, 11, 12, 13):
+        i += 1
+    if i == len(cs):
+        return -1, 0
+    j = i
+    if cs[j] in (43, 45):
+        j += 1
+    k = j
+    while k < len(cs) and 48 <= cs[k] <= 57:
+        k += 1
+    if k == j:
+        return 0, 0
+    return 1, int(bytes(cs[i:k]).decode())
+
+
+def px(v, fmt, arg):
+    """op line `printfX`: format (text), argument <K><value>, and the text the formatter must produce"""
+    fh = hexs(list(fmt.encode("latin-1")))
+    return f"printfX {v} {fh} {arg} {hexs(cfmt(fh, arg))}"
+
+
+def fd(v, x):
+    return f"fromDouble {v} {x} {hexs(list(('%f' % float(x)).encode()))}"
+
+
+DOUBLES = ["0", "1.5", "-2.25", "1e10", "123456.789", "1e-7", "0.125", "-0.5", "1e300", "-1e250", "3.0000005", "1e199", "1e200", "1e203"]
+
+
+def scan_line(ref, v):
+    n, x = cscan_d(cpart(ref.v[v]))
+    return f"scanfD {v} {n} {x}"
 
 
 def ctype(k, c):
@@ -149,6 +200,18 @@ class Ref:
         elif op == "fromBool": V[v] = list(b"true" if t[2] == "1" else b"false")
         elif op in ("fromInt", "fromInt64", "fromUInt", "fromUInt64"): V[v] = list(str(int(t[2])).encode())
         elif op == "fromPrintf": V[v] = fmt_items(t[2:])
+        elif op == "printfX":
+            out = cfmt(t[2], t[3])
+            if out != unhex(t[4]): return "bad-line: the expected text of the line differs from the reference"
+            V[v] = out
+            res = str(len(out))
+        elif op == "fromDouble":
+            out = list(("%f" % float(t[2])).encode())
+            if out != unhex(t[3]): return "bad-line: the expected text of the line differs from the reference"
+            V[v] = out
+        elif op == "scanfD":
+            n, x = cscan_d(cpart(a))
+            res = f"{n} {x}"
         elif op == "substr1": V[v] = self.substr(V[int(t[2])], int(t[3]), -1)
         elif op == "attachA":
             if int(t[2]) + int(t[3]) > len(a): return "bad-op"
@@ -459,7 +522,11 @@ MORE_OPS = [
     "compare 0 1", "eq 0 1", "findLastS 0 -", "hash 0", "toBool 0", "prependA 0 0 1", "prependA 0 1 2",
     "plusEqS 0 0", "plusEqS 0 1", "plusEqC 0 32", "plus 0 0 1", "plus 1 0 0", "plusLit 0 0 0", "fromCStr 0 612f", "fromBool 1 0",
     "fromInt 0 -12", "fromPrintf 0 L2f S6162", "trimD 0", "substr1 1 0 1", "capacity 0", "splitSet 0 2f 0",
+    px(0, "%4x|", "U171"), fd(1, "1.5"), "attach 0 2 1 0",
 ]
+
+
+OLD_MORE = 32      # MORE_OPS[:OLD_MORE] = the ops of scope B before the extension rounds
 
 
 def exhaustive(ops, depth):
@@ -495,7 +562,7 @@ def query_histories(subj_len, arg_len, holders):
                     h.append(f"eqICN {target} x{a} {max(1, n)}")
                     if subj != "-" or True:
                         h.append(f"sStartsWith {subj} x{a}")
-                    if "00" not in (subj, a):
+                    if hold == holders[0]:      # the static helpers do not depend on who holds the subject
                         for q in sorted(STATIC2 - {"sCompareN", "sCompareICN"}):
                             h.append(f"{q} {subj} {a}")
                         h.append(f"sCompareN {subj} {a} {len(unhex(a))}")
@@ -658,6 +725,12 @@ def gen_history(rng, length):
             elif j == 9: op = rng.choice([f"trimD {v}", f"substr1 {v} {w} {rng.randrange(-4, ln + 3)}", f"splitD {v} {arg}"])
             elif j == 10: op = rng.choice([f"capacity {v}", f"isEmpty {v}", f"eqLit {v} {rng.randrange(2)}", f"neLit {v} {rng.randrange(2)}",
                                            f"splitSet {v} {arg} {rng.randrange(2)}"])
+            elif j == 11 and rng.random() < 0.5:
+                wdt = rng.choice([1, 3, 8, 197, 199, 200, 201, 203, 204, 207, 208, 260])
+                op = rng.choice([px(v, f"%{wdt}d", f"D{rng.randrange(-999, 999)}"), px(v, f"%-{wdt}x|", f"U{rng.randrange(10**6)}"),
+                                 px(v, f"%.{rng.randrange(4)}f", f"F{rng.choice(DOUBLES[:8])}"), fd(v, rng.choice(DOUBLES)),
+                                 px(v, f"%{wdt}s", "S" + rand_bytes(rng, rng.choice([0, 2, 5]), [0x61, 0x62, 0x20]))]
+                                + ([scan_line(r, v)] if None not in r.v[v] else []))
             else: op = rng.choice([f"{rng.choice(['ne', 'lt', 'le', 'gt', 'ge'])} {v} {x}", f"eqICN {v} {x} {rng.randrange(0, 6)}",
                                    f"sStartsWith {rand_bytes(rng, rng.choice([0, 1, 2, 3]))} {x}"])
         elif k < 0.905: op = f"{rng.choice(QUERY1)} {v} {x}"
@@ -700,12 +773,44 @@ def special_histories():
         chars += [f"isSpace {c}", f"toLowerC {c}", f"toUpperC {c}"] + [f"ctype {k} {c}" for k in
                   ("alnum", "alpha", "digit", "lower", "print", "punct", "upper", "xdigit")]
     hs += [chars[i:i + 704] for i in range(0, len(chars), 704)]
+    # printf relative to the libc formatter: flags, widths, precisions, further conversions; result lengths swept over
+    # the first buffer and the capacity by the field width
+    fx = [("%5d|", "D42"), ("%-5d|", "D-42"), ("%05d", "D-42"), ("%+d", "D7"), ("% d", "D7"), ("%x", "U255"), ("%X", "U48879"), ("%#x", "U255"),
+          ("%o", "U8"), ("%08.3f", "F3.14159"), ("%f", "F2.5"), ("%.0f", "F0.5"), ("%.2f", "F0.125"), ("%e", "F12345.678"), ("%g", "F0.0001"),
+          ("%G", "F1e20"), ("%10.3f|", "F-1.5"), ("%.3s|", "S61626364"), ("%6s|", "S6162"), ("%-6s|", "S6162"), ("%c%%", "C47"), ("100%%%d", "D3"),
+          ("%lld", "Q-9223372036854775808"), ("%llx", "W18446744073709551615"), ("%llu", "W0"), ("%i", "D-1"), ("%3c|", "C97"), ("%f", "F1e300")]
+    hs.append([px(i % 4, f, a) for i, (f, a) in enumerate(fx)] + ["plus 0 1 2", px(0, "%300.1f", "F1.25"), "capacity 0"])
+    for n in (1, 150, 198, 199, 200, 201, 202, 203, 204, 205, 206, 207, 208, 209, 400):
+        hs.append([px(0, f"%{n}d", "D-7"), "capacity 0", px(0, f"%-{n}s", "S6162"), "ptr 1 6162", "assign 2 1", px(1, f"%{n}x", "U255"),
+                   "cap 3 204", px(3, f"%0{n}d", "D5"), "capacity 3", px(3, "%d", "D1"), "capacity 3"])
+    hs.append([fd(i % 4, x) for i, x in enumerate(DOUBLES)] + ["capacity 1", "plus 0 1 2"])
+    for subj in ("3132", "202d3778", "616263", "-", "2b35", "2020", "2d", "30303039", "0931320a", "2d2d31"):
+        r = Ref()
+        h = [f"ptr 0 {subj}", "assign 1 0"]
+        for l in h: r.apply(l)
+        hs.append(h + [scan_line(r, 0), scan_line(r, 1)])
+    for rg, off, ln in ((2, 4, 1), (2, 0, 5), (3, 0, 3), (1, 0, 5), (2, 3, 2), (0, 0, 2)):
+        r = Ref()
+        h = [f"attach 0 {rg} {off} {ln}"]
+        r.apply(h[0])
+        hs.append(h + [scan_line(r, 0), "cstr 0", scan_line(r, 0)])
     # replace with self-overlapping needles (matches are taken left to right, non-overlapping)
     for subj, nd in (("616161", "6161"), ("61616161", "6161"), ("6161616161", "616161"), ("6162616261", "616261"),
                      ("61626162616261", "616261"), ("612f612f61", "612f61"), ("2f2f2f", "2f2f")):
         for rp in ("-", "78", nd, "78797a7879"):
             hs.append([f"ptr 0 {subj}", "assign 1 0", f"replaceL 0 {nd} {rp}", f"ptr 2 {nd}", f"ptr 3 {rp}", "replaceS 1 2 3",
                        "eq 0 1", "capacity 0"])
+    # copies of an EMPTY non-owned string (descriptor of 0 chars of a literal / attached range, or the empty singleton),
+    # then the SOURCE is re-attached / reassigned / destroyed, then the copies are read and modified
+    for r in range(4):
+        for off in (0, 1, len(REGS[r]) - 1):
+            for change in (f"attach 0 {(r + 1) % 4} 0 2", f"attach 0 {r} 0 {len(REGS[r]) - 1}", "lit 0 1", "ptr 0 7879", "new 0",
+                           "append 0 7879", "printf 0 L78 D1"):
+                hs.append([f"attach 0 {r} {off} 0", "copy 1 0", "assign 2 0", "plus 3 0 0", change, "cstr 1", "isEmpty 1", "eq 1 2",
+                           "appendC 1 47", "appendS 2 0", "capacity 3", change, "compare 1 2"])
+    for change in ("attach 0 2 0 4", "lit 0 0", "ptr 0 78"):
+        hs.append(["new 0", "copy 1 0", change, "isEmpty 1", "appendC 1 47"])
+        hs.append(["lit 0 0", "attachA 0 2 0", "copy 1 0", change, "isEmpty 1", "appendC 1 47"])
     hs += alias_histories()
     return hs
 
@@ -841,7 +946,12 @@ def histories_for(ctx):
     quick = ctx.tier == "quick"
     corpus = C.load_corpus(ctx.prop)
     ex1 = exhaustive(CORE_OPS, 3 if quick else 4)
-    ex2 = exhaustive(CORE_OPS + MORE_OPS, 2 if quick else 3)
+    # scope B: every sequence of length <= 2 over the whole alphabet; thorough adds length 3 with the first two ops
+    # from the 56-op alphabet of before the extension rounds and the third from the whole alphabet (keeps the tier < 15 min)
+    ex2 = exhaustive(CORE_OPS + MORE_OPS, 2)
+    if not quick:
+        old = CORE_OPS + MORE_OPS[:OLD_MORE]
+        ex2 += [sanitize(list(p)) for p in itertools.product(old, old, CORE_OPS + MORE_OPS)]
     qs = query_histories(2 if quick else 3, 2 if quick else 3, ["owned", "shared"] if quick else ["owned", "shared", "copy"])
     if not quick:
         qs += query_histories(2, 4, ["owned", "shared"])
@@ -854,7 +964,7 @@ def histories_for(ctx):
     ctx.cov["rule"] = (
         f"corpus ({len(corpus)}) + exhaustive A: all op sequences of length <= {3 if quick else 4} over a {len(CORE_OPS)}-op alphabet on 3 variables "
         f"(literal, unterminated/terminated attached memory, capacity boundaries len 3/4 -> cap 3/7, self arguments of assign/append/prepend/replace) "
-        f"({len(ex1)} histories) + exhaustive B: length <= {2 if quick else 3} over {len(CORE_OPS) + len(MORE_OPS)} ops ({len(ex2)}) + "
+        f"({len(ex1)} histories) + exhaustive B: length <= 2 over {len(CORE_OPS) + len(MORE_OPS)} ops{'' if quick else ' and length 3 = two ops of the first ' + str(len(CORE_OPS) + OLD_MORE) + ' followed by any op'} ({len(ex2)}) + "
         f"query scope: every byte string over {{a,b,'/',' ',0x80}} of length <= {2 if quick else 3} as subject (owned, shared{'' if quick else ', copied'}) x every such string "
         f"of length <= {2 if quick else 3}{'' if quick else ' (and subjects <= 2 x arguments <= 4)'} as argument of every query/search/split/trim/replace/token op at every start index ({len(qs)} histories) + "
         f"every sub-range of the 4 foreign regions as attached subject x arguments of length <= {1 if quick else 2} ({len(fq)}) + "
@@ -866,8 +976,8 @@ def histories_for(ctx):
         f"{len(rnd)} random histories of 8..60 ops over 4 variables, 2 literals, 2 attached ranges; "
         "distinct_nontrivial = distinct (op-kind set, final observation of all variables) among histories with >= 3 ops and a non-empty final state")
     ctx.cov["exhaustive"] = False
-    ctx.cov["exhaustive_scope"] = (f"A: length<={3 if quick else 4} over {len(CORE_OPS)} ops: {len(ex1)} histories; B: length<={2 if quick else 3} over "
-                                   f"{len(CORE_OPS) + len(MORE_OPS)} ops: {len(ex2)}; queries: {len(qs)} subject histories; foreign: {len(fq)}")
+    ctx.cov["exhaustive_scope"] = (f"A: length<={3 if quick else 4} over {len(CORE_OPS)} ops: {len(ex1)} histories; B: length<=2 over "
+                                   f"{len(CORE_OPS) + len(MORE_OPS)} ops{'' if quick else ' + length 3 (two of the first ' + str(len(CORE_OPS) + OLD_MORE) + ' ops, then any)'}: {len(ex2)}; queries: {len(qs)} subject histories; foreign: {len(fq)}")
     return corpus + sp + bd + ti + ex1 + ex2 + qs + fq + rnd
 
 
